@@ -42,9 +42,11 @@ type W struct {
 	Payload string `json:"payload,omitempty"`
 	// CapForm (L2 only): how the constructor argument is written: "" int literal, "none", "neg", "str", "float"
 	CapForm string `json:"cap_form,omitempty"`
-	Nested  bool   `json:"nested_spawn,omitempty"`
-	Twin    bool   `json:"twin,omitempty"`
-	TwinCap int    `json:"twin_cap,omitempty"`
+	// SharedProd (L2 only, string payloads): all producers are executions of ONE closure value
+	SharedProd bool `json:"shared_producer_closure,omitempty"`
+	Nested     bool `json:"nested_spawn,omitempty"`
+	Twin       bool `json:"twin,omitempty"`
+	TwinCap    int  `json:"twin_cap,omitempty"`
 }
 
 func gen(r *verifsim.Rng, tier string) (any, hx.Sched) {
@@ -131,6 +133,7 @@ func gen(r *verifsim.Rng, tier string) (any, hx.Sched) {
 		if !w.ArrayPayload {
 			w.Payload = verifsim.Pick(r, []string{"", "", "int", "float", "loopint", "numstr", "obj"})
 		}
+		w.SharedProd = !w.ArrayPayload && w.Payload == "" && r.Intn(4) == 0
 		if r.Intn(8) == 0 {
 			// other constructor forms: no argument, a negative number (a string or float argument is a type error)
 			// (the class treats everything but a non-negative int as "unbuffered")
@@ -210,6 +213,11 @@ func shrink(x any) []any {
 	if w.ArrayPayload {
 		c := cp()
 		c.ArrayPayload = false
+		out = append(out, c)
+	}
+	if w.SharedProd {
+		c := cp()
+		c.SharedProd = false
 		out = append(out, c)
 	}
 	if w.Payload != "" {
